@@ -44,7 +44,8 @@ RULE = ("op sequences over 3 glyphs (in a font, or stand-alone) + font guideline
         "AND an invalid colour through insert / append / instantiate / the anchors / guidelines setters; "
         "plus every point-type pattern up to length 4 (sampled: 5) x every point-list edit; plus directed families "
         "(stale point after each point-list edit, strangers carrying an identifier in use, first guideline call on an "
-        "unread font); plus the "
+        "unread font, calls on glyphs whose contours are still shallow loaded - lazily loaded contours are observed as "
+        "the records they are instead of being deepened after every operation); plus the "
         "corpus of regression/witness histories; non-trivial = at least one successful registry-changing op AND at "
         "least one rejected duplicate or generated identifier; distinct = distinct op lists")
 ASSUMPTIONS = [
@@ -67,6 +68,8 @@ ASSUMPTIONS = [
     "observation reports what the harness wrote to fontinfo.plist, the real registry and guidelines are compared "
     "from the first guideline call on; Font.appendGuideline is not used on an unread font (it computes the index "
     "before the lazy read and inserts at 0: an ordering matter, not C10's)",
+    "while a glyph's contours are shallow loaded the contours and the identifiers they carry are read off the shallow "
+    "records (Glyph._shallowLoadedContours, a private attribute: every public way to look at contours deepens them)",
     "Contour.reverse is exercised on contours fontTools' PointToSegmentPen can draw before and after the reversal "
     "(reverse reads Contour.clockwise twice; on other contours that raises PenError or not depending on the cached "
     "area representation, which is C03's subject); the probe uses fontTools itself",
@@ -516,6 +519,81 @@ def gen_stranger_cases(rng, tier):
         yield dict(ops=ops, standalone=rng.random() < 0.3)
 
 
+def gen_shallow_cases(rng, tier):
+    """a UFO is opened: the glyphs hold their contours in the lazily loaded (shallow) form until something looks at
+    them.  Histories of calls that do NOT look at contours (anchors, guidelines, components, (de)serialisation,
+    drawing into / from, copying, reloading), with identifiers that collide with those of the shallow contours and
+    points; then calls that deepen them"""
+    n = 80 if tier == "quick" else 800
+    for _ in range(n):
+        while True:
+            datas = [gen_unique_data(rng, i) for i in range(NGLYPH)]
+            if any(pid is not None for d in datas for c in d["contours"] for pid in [c[0]] + [q[1] for q in c[1]]):
+                break
+        stored = [sorted(_ids_of_data_raw(d)) for d in datas]
+        ops = [["reopen", datas, [i if rng.random() < 0.6 else None for i in rng.sample(POOL, rng.randint(0, 2))],
+                None, rng.random() < 0.5]]
+        for _ in range(rng.randint(2, 6)):
+            t = rng.randrange(NGLYPH)
+
+            def ident():
+                if stored[t] and rng.random() < 0.6:
+                    return rng.choice(stored[t])
+                return _pid(rng, 0.2)
+            r = rng.random()
+            if r < 0.14:
+                ops.append(["insAnchor", t, rng.randrange(4), ident(), rng.random() < 0.5])
+            elif r < 0.24:
+                ops.append(["insGuide", t, rng.randrange(4), ident(), rng.random() < 0.5])
+            elif r < 0.32:
+                ops.append(["insComp", t, rng.randrange(4), rng.choice([b for b in range(t + 1, NGLYPH)] + [MISSING]), ident()])
+            elif r < 0.38:
+                ops.append(["setAnchors", t, [ident() for _ in range(rng.randint(0, 3))]])
+            elif r < 0.44:
+                ops.append(["setGuides", t, [ident() for _ in range(rng.randint(0, 3))]])
+            elif r < 0.56:
+                ops.append(["roundtrip", t])
+            elif r < 0.66 and t < NGLYPH - 1:
+                ops.append(["deserializeFrom", t, rng.randrange(t + 1, NGLYPH)])
+            elif r < 0.72 and t < NGLYPH - 1:
+                ops.append(["drawFrom", t, rng.randrange(t + 1, NGLYPH), rng.random() < 0.5])
+            elif r < 0.77 and t < NGLYPH - 1:
+                ops.append(["copyFrom", t, rng.randrange(t + 1, NGLYPH)])
+            elif r < 0.80 and t < NGLYPH - 1:
+                ops.append(["insertGlyph", t, rng.randrange(t + 1, NGLYPH)])
+            elif r < 0.84:
+                ops.append(["genAnchorId", t, rng.randrange(4), [ident() or 0, ident() or 1, 901]])
+            elif r < 0.88:
+                ops.append(["setCompId", t, rng.randrange(4), ident()])
+            elif r < 0.91:
+                ops.append(["decompose", t, rng.randrange(4)])
+            elif r < 0.94:
+                ops.append(["insAnchorBad", t, rng.randrange(4), ident(), rng.randrange(3), rng.randrange(len(BAD_COLORS))])
+            elif r < 0.97:
+                ops.append(["reload", t, gen_unique_data(rng, t)])
+            else:
+                ops.append(["draw", t, [gen_contour(rng)], [], rng.random() < 0.4])
+        for _ in range(rng.randint(1, 2)):
+            t = rng.randrange(NGLYPH)
+            ops.append(rng.choice([["rmContour", t, rng.randrange(4)], ["reverse", t, rng.randrange(4)],
+                                   ["insContour", t, rng.randrange(4)] + gen_contour(rng),
+                                   ["genPointId", t, rng.randrange(4), rng.randrange(4), [rng.choice(POOL), 902]],
+                                   ["clearGlyph", t]]))
+        yield dict(ops=ops, standalone=False)
+
+
+def _ids_of_data_raw(d):
+    res = set()
+    for cid, pts in d["contours"]:
+        res.add(cid)
+        res.update(q[1] for q in pts)
+    res.update(c[1] for c in d["comps"])
+    res.update(d["anchors"])
+    res.update(d["guides"])
+    res.discard(None)
+    return res
+
+
 def gen_unread_font_cases(rng, tier):
     """a UFO with font guidelines is opened and the FIRST thing done to the font is a guideline call (insertion
     as dict or object, re-insertion, assignment, clearing, removal, setters ...), with a high rate of identifiers
@@ -578,6 +656,8 @@ def generate(rng, tier):
     for c in gen_stale_point_cases(rng, tier):
         yield c
     for c in gen_stranger_cases(rng, tier):
+        yield c
+    for c in gen_shallow_cases(rng, tier):
         yield c
     for c in gen_unread_font_cases(rng, tier):
         yield c
@@ -755,6 +835,7 @@ class World(object):
         self.stale = []         # Point objects that used to be in a contour of the world (replaced, removed, cleared)
         self.unread = None      # identifiers of the guidelines in fontinfo.plist while the re-opened font is unread
         self.unread_first = 0   # guideline calls that were the first thing to touch an unread font
+        self.on_shallow = 0     # calls on a glyph whose contours were still shallow loaded
         if uses_disk and not standalone:
             self.disk()         # saved while the glyphs are still empty
 
@@ -804,6 +885,19 @@ class World(object):
             return c.anchors
         return c.guidelines
 
+    def shallow(self, t):
+        """glyph `t` still holds its contours in the lazily loaded (shallow) form: plain records, no Contour /
+        Point objects yet.  Read off the private attribute: every public way to look at contours deepens them."""
+        return t != FONT and bool(self.glyphs[t]._shallowLoadedContours)
+
+    def children_now(self, t, kind):
+        """the children after a call, for the limbo bookkeeping: the contours of a glyph that is (again) shallow
+        are new records, none of them is an object that existed before the call - and must not be deepened by
+        the harness"""
+        if kind == 0 and self.shallow(t):
+            return []
+        return self.children(t, kind)
+
     def base_name(self, b):
         return "G%d" % b if b != MISSING else "missing"
 
@@ -840,7 +934,7 @@ class World(object):
         try:
             call()
         finally:
-            now = self.children(t, kind)
+            now = self.children_now(t, kind)
             for o in reversed(old):
                 if not any(o is x for x in now):
                     self.to_limbo(kind, o)
@@ -887,13 +981,25 @@ class World(object):
             g = self.glyphs[t]
             carried = []
             contours = []
-            for c in g:
-                carried.append((id(c), c.identifier))
-                pts = []
-                for p in c:
-                    carried.append((id(p), p.identifier))
-                    pts.append([TYPES.index(p.segmentType), opt(s2id(p.identifier))])
-                contours.append([opt(s2id(c.identifier)), pts])
+            records = g._shallowLoadedContours
+            if records:
+                # lazily loaded contours are observed as the records they are: iterating the glyph would deepen them
+                # after every operation, and no history would ever run on a shallow glyph
+                for ci, d in enumerate(records):
+                    carried.append((("shallow", ci), d.get("identifier")))
+                    pts = []
+                    for pi, (args, kwargs) in enumerate(d["points"]):
+                        carried.append((("shallow", ci, pi), kwargs.get("identifier")))
+                        pts.append([TYPES.index(kwargs.get("segmentType")), opt(s2id(kwargs.get("identifier")))])
+                    contours.append([opt(s2id(d.get("identifier"))), pts])
+            else:
+                for c in g:
+                    carried.append((id(c), c.identifier))
+                    pts = []
+                    for p in c:
+                        carried.append((id(p), p.identifier))
+                        pts.append([TYPES.index(p.segmentType), opt(s2id(p.identifier))])
+                    contours.append([opt(s2id(c.identifier)), pts])
             comps = []
             for c in g.components:
                 carried.append((id(c), c.identifier))
@@ -907,7 +1013,7 @@ class World(object):
                 carried.append((id(a), a.identifier))
                 guides.append(opt(s2id(a.identifier)))
             out.append([[Atom("set")] + regs[t], contours, comps, anchors, guides])
-            snap.append(dict(reg=regs_raw[t], carried=carried, obj=id(g)))
+            snap.append(dict(reg=regs_raw[t], carried=carried, obj=id(g), unread=bool(records)))
         fg = []
         carried = []
         if unread:
@@ -934,6 +1040,11 @@ class World(object):
     # -- operations ---------------------------------------------------------------------
 
     def do(self, op):
+        inner = op[2] if op[0] == "tagged" else op
+        t = inner[2] if inner[0] in ("rmAbsent", "rmForeign") else (inner[1] if len(inner) > 1 else None)
+        if isinstance(t, int) and t < NGLYPH and inner[0] not in ("limboSetId", "limboGenId", "limboAddPoint", "reopen") \
+                and self.shallow(t):
+            self.on_shallow += 1
         try:
             res = self._do(op)
             if res is None:
@@ -1335,7 +1446,7 @@ class World(object):
                 g.copyDataFromGlyph(self.glyphs[op[2]])
             finally:
                 for kind, old in ((2, olds[0]), (3, olds[1])):
-                    now = self.children(op[1], kind)
+                    now = self.children_now(op[1], kind)
                     for o in reversed(old):
                         if not any(o is x for x in now):
                             self.to_limbo(kind, o)
@@ -1358,7 +1469,7 @@ class World(object):
                 g.setDataFromSerialization(data)
             finally:
                 for kind in range(4):
-                    now = self.children(op[1], kind)
+                    now = self.children_now(op[1], kind)
                     for o in reversed(chs[kind]):
                         if not any(o is x for x in now):
                             self.to_limbo(kind, o)
@@ -1399,7 +1510,7 @@ class World(object):
                 self.font.layers.defaultLayer.reloadGlyphs(["G%d" % t])
             finally:
                 for kind in range(4):
-                    now = self.children(t, kind)
+                    now = self.children_now(t, kind)
                     for o in reversed(chs[kind]):
                         if not any(o is x for x in now):
                             self.to_limbo(kind, o)
@@ -1520,6 +1631,7 @@ def run_impl(case):
             trace.append(dict(op=effective(op), res=res, before=before, after=snap, gen=w.gen_checks[n_gen:],
                               tagged=op[0] == "tagged"))
         unread_first = w.unread_first
+        on_shallow = w.on_shallow
     finally:
         w.close()
     viol = oracle(case, trace)
@@ -1543,6 +1655,8 @@ def run_impl(case):
     kinds["len"] = len(case["ops"])
     if unread_first:
         kinds["first-guideline-call-on-unread-font"] = unread_first
+    if on_shallow:
+        kinds["calls-on-shallow-glyph"] = on_shallow
     refused = sum(1 for tr in trace if tr["op"][0] in REFUSED and isinstance(tr["res"], list) and tr["res"]
                   and tr["res"][0] == "err" and str(tr["res"][1]) != "Empty")
     if refused:
